@@ -45,6 +45,11 @@ var accountParts = []accountPart{
 	{"a{2,3}", []string{"a", "aa", "aaa", "aaaa"}},
 	{"a+b*", []string{"a", "aab", "b", "abx", "aabb"}},
 	{"my account [0-9]", []string{"my account 1", "my account 12", "my account"}},
+	// a `$` that is part of the name, not an anchor
+	{`a\$`, []string{"a$", "a$x", "a", "xa$", "a$$"}},
+	{`acc\$[0-9]*\$`, []string{"acc$$", "acc$1$", "acc$1$x", "acc$1"}},
+	// a literal backslash followed by a real anchor
+	{`a\\$`, []string{`a\`, `a\x`, "a", `a\$`}},
 }
 
 var alternationParts = []accountPart{
@@ -211,6 +216,20 @@ func gen(r *Rand) Input {
 	seen := map[wn]bool{}
 	var cands []wn
 	add := func(w, n string) {
+		// names that differ from a wanted one only by white space, or that contain a line feed
+		// (which `.` does not match)
+		if r.Chance(1, 14) {
+			switch r.Intn(4) {
+			case 0:
+				n = " " + n
+			case 1:
+				n += " "
+			case 2:
+				n += "\n"
+			default:
+				n += "\nx"
+			}
+		}
 		if !seen[wn{w, n}] && w != "" {
 			seen[wn{w, n}] = true
 			cands = append(cands, wn{w, n})
